@@ -390,7 +390,8 @@ class FmtStr:
             end = start
         if len(new_str) == 0 and start == end:
             return self
-        new_fs = new_str if isinstance(new_str, FmtStr) else fmtstr(new_str)
+        # the characters of a plain str are inserted as they are, as with +
+        new_fs = new_str if isinstance(new_str, FmtStr) else FmtStr(Chunk(new_str))
         new_components = []
         inserted = False
         tail = None
@@ -449,7 +450,7 @@ class FmtStr:
             if isinstance(s, FmtStr):
                 chunks.extend(s.chunks)
             elif isinstance(s, (bytes, str)):
-                chunks.extend(fmtstr(s).chunks)  # TODO just make a chunk directly
+                chunks.append(Chunk(s))  # the characters of a plain str, as with +
             else:
                 raise TypeError("expected str or FmtStr, %r found" % type(s))
         return FmtStr(*chunks)
